@@ -27,14 +27,14 @@ SYM = {
 }
 FULL = ["s0", "se", "s1", "s2", "e0", "e1", "W", "P", "G", "T", "K1", "K2"]
 MID = ["s0", "se", "s1", "e1", "W", "P", "G", "T", "K1", "K2"]
-QUICK = ["s0", "se", "s1", "W", "P", "G", "T", "K1"]
+QUICK = ["se", "s1", "W", "P", "G", "T", "K1"]
 SMALL = ["se", "s1", "W", "P", "G", "K1"]
 TINY = ["se", "s1", "W", "P", "K1"]
 
 
 def bounds(tier):
     q = [("A=1 K<=2 full alphabet", 1, 2, FULL, False), ("A=2 K=1 full", 2, 1, FULL, True), ("A=3 K=1 full", 3, 1, FULL, True),
-         ("A=2 K=2 (8 symbols)", 2, 2, QUICK, True)]
+         ("A=2 K=2 (7 symbols)", 2, 2, QUICK, True)]
     if tier == "quick":
         return q
     return q + [("A=1 K=3 full", 1, 3, FULL, True), ("A=2 K=2 full", 2, 2, FULL, True), ("A=4 K=1 full", 4, 1, FULL, True),
@@ -62,7 +62,8 @@ def build_prog(case):
 _refcache = {}
 
 
-def reference(case, prog):
+def reference(case, prog, end):
+    """allowed observations; `end` = date at which the (possibly shared) simulation ended: deadlocked actors die then"""
     k = json.dumps(case["prog"])
     if k not in _refcache:
         if len(_refcache) > 5000:
@@ -73,19 +74,13 @@ def reference(case, prog):
             _refcache[k] = e
     if isinstance(_refcache[k], Exception):
         raise _refcache[k]
+    if _refcache[k][1].deadlock and end is not None:
+        return timed_ref.allowed(prog, end_date=F(end))
     return _refcache[k]
 
 
-def pack_safe(case, prog):
-    """a program that ends in a deadlock learns it at the end of the whole simulation: it must run alone"""
-    try:
-        return not reference(case, prog)[1].deadlock
-    except timed_ref.RefError:
-        return False
-
-
 def key_of(case, what):
-    return "prog=%s :: %s" % ("|".join("[" + ",".join(ops) + "]" for ops in case["prog"]), what)
+    return "prog=%s => %s" % ("|".join("[" + ",".join(ops) + "]" for ops in case["prog"]), what)
 
 
 def judge(case, prog, obs):
@@ -159,7 +154,7 @@ def judge(case, prog, obs):
             dates.setdefault(c, set()).add("timer")
     res["coincide"] = any(len(v) >= 2 for v in dates.values())
     try:
-        allowed, ref = reference(case, prog)
+        allowed, ref = reference(case, prog, obs["end"])
     except timed_ref.RefError as e:
         if str(e) in ("sharing",):
             res["skipped"] = str(e)
@@ -183,6 +178,7 @@ def what_class(r):
     """failure signature without dates: the part of the key after '::'"""
     import re
     p = r["problems"][0]
+    p = re.sub(r"^simulation ended with status \d+", "simulation crashed", p)
     p = re.sub(r"[0-9]+\.[0-9e+-]+", "#", p)
     return p[:160]
 
@@ -200,7 +196,7 @@ def run(ctx):
             exhaustive = False
             break
         cases = enum(A, K, syms, exact)
-        results = simlib.eval_cases_packed(binary, cases, "checks.c03", K=16, tag="c03")
+        results = simlib.eval_cases_packed(binary, cases, "checks.c03", K=32, tag="c03")
         evaluations += len(results)
         nb = 0
         for r in results:
